@@ -338,6 +338,16 @@ def run_case(case):
             if nt:
                 st["trees_with_tiny_subcircuit"] = st.get("trees_with_tiny_subcircuit", 0) + 1
             unique_safe_labels(rng, t)
+            if rng.random() < 0.25:
+                # exact shorts at the documented lower limit (R = 0, L = 0): the circuit still simulates, every export must still exist
+                # and the un-substituted expression still has one variable per parameter
+                top_ids = {id(e) for e in G.iter_elements(t, include_subs=False)}
+                for e in G.iter_elements(t):
+                    if e["sym"] in ("R", "L") and rng.random() < 0.4:
+                        e["p"][e["sym"]][0] = G.enc(0.0)
+                        st["elements_set_to_exact_short"] = st.get("elements_set_to_exact_short", 0) + 1
+                        if id(e) not in top_ids:
+                            t["_zero_in_subcircuit"] = True
         try:
             c_obj = G.build_objects(t)
         except Exception as e:
@@ -350,6 +360,7 @@ def run_case(case):
                 routes.append(("parser", parse_cdc(text)))
             except Exception as e:
                 viol.append({"key": fkey or f"C20/parse-raised:{type(e).__name__}", "msg": f"{e}", "witness": {"cdc": text}})
+        n_before = len(viol)
         for name, c in routes:
             if not simulates(c):
                 st["not_simulable"] = st.get("not_simulable", 0) + 1
@@ -360,6 +371,11 @@ def run_case(case):
             evals += 1
             if G.count_elements(t) >= 2:
                 keys.append((G.brief(G.nf(t)), tuple(bool(e["label"]) for e in G.iter_elements(t)), name))
+        if isinstance(t, dict) and t.get("_zero_in_subcircuit"):
+            # open finding: a container sub-circuit whose impedance is exactly zero is exported as a short, its parameters vanish
+            for v in viol[n_before:]:
+                if v["key"] == "C20/symbols-not-one-per-parameter" and "unexpected []" in v["msg"]:
+                    v["key"] = "C20/symbols-not-one-per-parameter:exact-zero-container-subcircuit"
         for e in G.iter_elements(t):
             st["elem:" + e["sym"]] = st.get("elem:" + e["sym"], 0) + 1
         if sample is None:
